@@ -3,7 +3,7 @@
 From Coq Require Import List NArith ZArith Bool Lia Arith String Ascii.
 From RPFT Require Import Base.Sexp Base.PyStr Base.PyStrFacts Base.Result Base.ODict Gen.Tables Cell.Cell Cell.CellFacts
   Row.Ty Row.RowParse Row.FlowRow Row.ParseFold Row.Encodes Row.EncodesFacts Row.FlowHeaderFacts Row.HeaderFacts
-  Row.StarFacts.
+  Row.StarFacts Row.ReorderFacts.
 Import ListNotations.
 Local Open Scope N_scope.
 
@@ -441,4 +441,23 @@ Proof.
   rewrite forallb_forall in H. intros short long Hin cells. specialize (H _ Hin). cbn [fst snd] in H.
   destruct (oget str_eqb (cx_basic flow_cx) short) as [l|] eqn:E; [|discriminate].
   apply str_eqb_eq in H. subst l. apply short_long_headers. exact E.
+Qed.
+
+(* swapping two neighbouring columns of different fields *)
+Example swap_columns_nonvacuous :
+  let a := (s!"l.1", s!"1") in let b := (s!"es.1.a", s!"p") in
+  let post := tl (tl cells_spread) in
+  cells_spread = [] ++ a :: b :: post
+  /\ NoDup (map fst ([] ++ a :: b :: post)) /\ star_free ([] ++ a :: b :: post) = true
+  /\ top_key [] (fst a) <> top_key [] (fst b)
+  /\ Encodes rmR vR ([] ++ a :: b :: post)
+  /\ parse_row rmR ([] ++ b :: a :: post) = Ok vR.
+Proof.
+  cbv zeta. split; [reflexivity|]. split; [nodup|]. split; [vm_compute; reflexivity|].
+  split; [vm_compute; discriminate|]. split; [exact encodes_spread|].
+  apply encodes_parse.
+  refine (proj1 (swap_columns rmR _ [] [] vR [] _ _ _ eq_refl eq_refl _ _ _ encodes_spread)).
+  - nodup.
+  - vm_compute. reflexivity.
+  - vm_compute. discriminate.
 Qed.
